@@ -38,7 +38,7 @@ def record(binary, src, prog=None, max_events=6000, timeout=8, mode="run"):
     if entry is None:
         return None, "no entry"
     return dict(id=str(src), prog=prog if prog is not None else dict(body=[]), judge_src=prog is not None,
-                funcs=[dict(qn=f["qn"], name=f["name"], code=f["code"]) for f in funcs], entry=entry,
+                funcs=[dict(qn=f["qn"], file=f["file"], name=f["name"], code=f["code"]) for f in funcs], entry=entry,
                 events=evs, exit=r["exit"]), ""
 
 
@@ -68,7 +68,7 @@ def stage(binary, work, cases, limit, rnd, max_events=6000, workers=12):
     records dump + trace of `run`, validates against MSVMV and (for the AST) MSLang.
     Returns dict(sampled, recorded, skipped, accepted, oom, stuck, xlate, states, transitions)."""
     work = Path(work)
-    pool = [c for c in cases if not c.get("rejected") and "mods" not in c["prog"]]
+    pool = [c for c in cases if not c.get("rejected")]
     if len(pool) > limit:
         pool = rnd.sample(pool, limit)
     root = C.fresh_dir(work / "p")
@@ -77,8 +77,14 @@ def stage(binary, work, cases, limit, rnd, max_events=6000, workers=12):
         k, c = kc
         d = root / str(k)
         d.mkdir(parents=True, exist_ok=True)
-        (d / "main.ms").write_text(c["src"])
-        rec, why = record(binary, d / "main.ms", prog=c["prog"], max_events=max_events)
+        if "mods" in c["prog"]:
+            for name, text in c["files"].items():
+                (d / name).write_text(text)
+            entry = c["prog"]["mods"][c["prog"]["entry"] - 1]["name"] + ".ms"
+        else:
+            (d / "main.ms").write_text(c["src"])
+            entry = "main.ms"
+        rec, why = record(binary, d / entry, prog=c["prog"], max_events=max_events)
         if rec is not None:
             rec["id"] = c["id"]
         return c, rec, why
